@@ -384,10 +384,19 @@ pub fn generate_c20(opts: &Opts, sink: &mut CaseSink) {
     let mut rng = Rng::new(opts.seed);
     let n = (if opts.thorough { 800 } else { 80 }) / opts.scale;
     let watchdog = Duration::from_secs(60);
-    for _ in 0..n {
-        let p = strip_repl(pipe::random_acyclic_with_panic(&mut rng));
-        let d = pipe::random_deploy(&mut rng);
-        let m = pipe::random_mode(&mut rng);
+    // dedicated shapes: the panic happens on a host that runs NO replica of the next block (a
+    // forward edge to a block limited to 2 replicas, all on host 0): the failure must still
+    // reach that block, its host must fail and the sink must not publish
+    let mut dedicated: Vec<(Pipe, Deploy, Mode)> = vec![];
+    for trig in 0..(if opts.thorough { 6 } else { 3 }) {
+        let other = (trig + 1) % 7;
+        let data: Vec<P> = (0..40).map(|i| (i % 5, 7 * (i / 4) + if i % 4 >= 2 { trig } else { other })).collect();
+        let p = Pipe::Op(Box::new(Pipe::Op(Box::new(Pipe::Op(Box::new(Pipe::Src(true, data)), Op1::PanicAt(trig))), Op1::Repl(Repl::Limited(2)))), Op1::MapAdd(1));
+        dedicated.push((p, Deploy::Remote(vec![2, 2]), *rng.pick(&[Mode::Fixed(1024), Mode::Adaptive(1024, 50), Mode::Fixed(3)])));
+    }
+    for i in 0..n + dedicated.len() {
+        let (p, d, m) = if i < dedicated.len() { dedicated[i].clone() } else {
+            (strip_repl(pipe::random_acyclic_with_panic(&mut rng)), pipe::random_deploy(&mut rng), pipe::random_mode(&mut rng)) };
         let o = pipe::run_crash(&p, &d, m, watchdog);
         let (term, descr, fired) = match &o {
             CrashOutcome::Rejected => { sink.count("plan_rejected_by_api"); continue; }
@@ -407,4 +416,4 @@ pub fn generate_c20(opts: &Opts, sink: &mut CaseSink) {
                   json!({"pipeline (PanicAt printed as the identity map)": p.coq(), "deployment": d.describe(), "batch_mode": format!("{:?}", m), "observed": descr}), fired);
     }
 }
-pub const RULE_C20: &str = "random acyclic pipelines (joins, merges, diamonds, every aggregation form) on the real engine with a user function that panics on one chosen element value, inserted at a random operator position — so the failing replica and the element position follow from the data and the routing; local 1..8 and 2..3-host deployments, all batch modes; observed per host: execute_blocking failed / sink handle holds a result. Non-trivial: the panic actually fired; distinct = distinct case terms";
+pub const RULE_C20: &str = "random acyclic pipelines (joins, merges, diamonds, every aggregation form) on the real engine with a user function that panics on one chosen element value, inserted at a random operator position — so the failing replica and the element position follow from the data and the routing; local 1..8 and 2..3-host deployments, all batch modes; plus dedicated two-host jobs in which the panicking replica's host runs no replica of the next block (forward edge to a block limited to 2 replicas); observed per host: execute_blocking failed / sink handle holds a result. Non-trivial: the panic actually fired; distinct = distinct case terms";
